@@ -1449,6 +1449,8 @@ struct TagOut {
     results_checked: u64,
     node_requests: u64,
     down_node_cases: u64,
+    histories: u64,
+    history_broadcasts: u64,
     findings: Vec<(String, String, Value)>,
     inconclusive: Vec<String>,
     distinct: Vec<u64>,
@@ -1457,6 +1459,81 @@ struct TagOut {
 fn drain_paths(node: &FakeNode) -> Vec<String> {
     let (log, _, _) = node.take_log();
     log.into_iter().filter_map(|e| if let Ev::Request { path, .. } = e.ev { Some(path) } else { None }).collect()
+}
+
+/// One broadcast on `fleet`, judged against `member_tags` (index -> tag set of the fake node that is a member right now, None = not a member).
+#[allow(clippy::too_many_arguments)]
+fn one_broadcast(kind: Kind, fleet: &AnyFleet, rt: &tokio::runtime::Runtime, nodes: &[Arc<FakeNode>], member_tags: &[Option<Vec<&'static str>>], q: &[&'static str], down: Option<usize>, reduce: bool, with_params: bool, history: &Value, hist_ctx: &str, out: &mut TagOut) {
+    let k = kind.name();
+    let names: Vec<String> = (0..nodes.len()).map(|i| format!("node{i}")).collect();
+    let expected: BTreeSet<usize> = (0..member_tags.len()).filter(|&i| member_tags[i].as_ref().is_some_and(|tags| q.iter().all(|t| tags.contains(t)))).collect();
+    let path = format!("/c19b/{}", TOKEN.fetch_add(1, Ordering::Relaxed));
+    let params = json!({"tok": path});
+    if let Some(d) = down {
+        nodes[d].set_mode(Out::Refused, 0);
+        out.down_node_cases += 1;
+    }
+    let p = if with_params { Some(&params) } else { None };
+    // the result list as (node name, Res)
+    let results: Vec<(String, Res)> = match (fleet, reduce) {
+        (AnyFleet::Sync(f), false) => f.broadcast_json(&path, p, q).into_iter().map(|(name, r)| { let nm = r.node.clone(); (name, res_of_json(r, &nm, &path)) }).collect(),
+        (AnyFleet::Sync(f), true) => f.map_reduce_json(&path, p, q, |rs| rs.into_iter().map(|r| { let nm = r.node.clone(); (nm.clone(), res_of_json(r, &nm, &path)) }).collect()),
+        (AnyFleet::Async(f), false) => rt.block_on(f.broadcast_json(&path, p, q)).into_iter().map(|(name, r)| { let nm = r.node.clone(); (name, res_of_json(r, &nm, &path)) }).collect(),
+        (AnyFleet::Async(f), true) => rt.block_on(f.map_reduce_json(&path, p, q, |rs| rs.into_iter().map(|r| { let nm = r.node.clone(); (nm.clone(), res_of_json(r, &nm, &path)) }).collect())),
+    };
+    let filtered: BTreeSet<String> = match fleet {
+        AnyFleet::Sync(f) => f.filter_nodes(q).into_iter().map(|n| n.name).collect(),
+        AnyFleet::Async(f) => rt.block_on(f.filter_nodes(q)).into_iter().map(|n| n.name).collect(),
+    };
+    if let Some(d) = down {
+        nodes[d].set_mode(Out::Success, 0);
+    }
+    out.evals += 1;
+    out.broadcasts += 1;
+    out.distinct.push(hash_of(&(k, member_tags, q, down, reduce, hist_ctx)));
+    let scenario = json!({"part": "tags", "kind": k, "node_tags": member_tags, "requested": q, "down_node": down, "via": if reduce {"map_reduce_json"} else {"broadcast_json"}, "history": history});
+    let ctx = format!("{k} members={:?} requested={:?} down={:?} via {}{}", member_tags, q, down, if reduce { "map_reduce_json" } else { "broadcast_json" }, hist_ctx);
+    let want_names: BTreeSet<String> = expected.iter().map(|&i| names[i].clone()).collect();
+    let got_names: BTreeSet<String> = results.iter().map(|(n, _)| n.clone()).collect();
+    if results.len() != got_names.len() || results.len() != want_names.len() && got_names == want_names {
+        out.findings.push((format!("C19:broadcast-result-count:{k}"), format!("{} results for {} addressed nodes — {ctx}; got {:?}", results.len(), want_names.len(), results.iter().map(|(n, r)| format!("{n}:{}", r.short())).collect::<Vec<_>>()), scenario.clone()));
+    }
+    if let Some(x) = got_names.difference(&want_names).next() {
+        out.findings.push((format!("C19:broadcast-addressed-extra:{k}"), format!("result from {x} which does not carry all requested tags (or is not a member) — {ctx}"), scenario.clone()));
+    }
+    if let Some(x) = want_names.difference(&got_names).next() {
+        out.findings.push((format!("C19:broadcast-missed-node:{k}"), format!("no result for {x} which carries all requested tags — {ctx}"), scenario.clone()));
+    }
+    if filtered != want_names {
+        out.findings.push((format!("C19:filter-nodes:{k}"), format!("filter_nodes returned {filtered:?}, expected {want_names:?} — {ctx}"), scenario.clone()));
+    }
+    for (name, r) in &results {
+        out.results_checked += 1;
+        let idx = names.iter().position(|x| x == name);
+        let is_down = idx.is_some() && idx == down;
+        if is_down {
+            if !matches!(r, Res::Io { .. }) {
+                out.findings.push((format!("C19:broadcast-wrong-result:{k}:down-node"), format!("node {name} was down (refused) but its result is {} — {ctx}", r.long()), scenario.clone()));
+            }
+        } else if !r.is_ok() {
+            if r.io_kind() == Some("TimedOut") {
+                out.inconclusive.push(format!("a healthy broadcast target timed out after 5 s ({ctx})"));
+            } else {
+                out.findings.push((format!("C19:broadcast-wrong-result:{k}"), format!("result of {name} is {} instead of that node's own reply to this broadcast — {ctx}", r.long()), scenario.clone()));
+            }
+        }
+    }
+    // node side: exactly the addressed nodes received exactly one request carrying this token
+    for i in 0..nodes.len() {
+        let got = drain_paths(&nodes[i]).into_iter().filter(|p| *p == path).count();
+        out.node_requests += got as u64;
+        let want = expected.contains(&i) as usize;
+        // the node that is down may still see the request on a connection cached earlier (it then closes it)
+        if got != want && !(Some(i) == down && got == 0) {
+            let sig = if want == 0 { format!("C19:broadcast-sent-to-unaddressed:{k}") } else { format!("C19:broadcast-request-count:{k}") };
+            out.findings.push((sig, format!("fake node {i} received {got} request(s) for this broadcast, expected {want} — {ctx}"), scenario.clone()));
+        }
+    }
 }
 
 fn run_tag_config(kind: Kind, cfg: &TagCfg, cfg_idx: usize, nodes: &[Arc<FakeNode>], rt: &tokio::runtime::Runtime, out: &mut TagOut) {
@@ -1472,24 +1549,15 @@ fn run_tag_config(kind: Kind, cfg: &TagCfg, cfg_idx: usize, nodes: &[Arc<FakeNod
     for nd in nodes {
         nd.reset(0);
     }
-    let k = kind.name();
+    let member_tags: Vec<Option<Vec<&'static str>>> = cfg.tags.iter().cloned().map(Some).collect();
     // one extra pass with a node down (refused): its result must still be there, as an error
     let down: Option<usize> = if cfg_idx % 8 == 3 { Some(cfg_idx / 8 % n) } else { None };
     let passes: Vec<(Vec<&'static str>, Option<usize>)> = cfg.queries.iter().cloned().map(|q| (q, None)).chain(down.map(|d| (vec![], Some(d)))).collect();
     for (qi, (q, down)) in passes.iter().enumerate() {
-        let expected: BTreeSet<usize> = (0..n).filter(|&i| q.iter().all(|t| cfg.tags[i].contains(t))).collect();
-        let path = format!("/c19b/{}", TOKEN.fetch_add(1, Ordering::Relaxed));
-        let params = json!({"tok": path});
         let with_params = qi % 2 == 0;
         let reduce = qi % 3 == 1;
-        if let Some(d) = down {
-            nodes[*d].set_mode(Out::Refused, 0);
-            out.down_node_cases += 1;
-        }
-        let p = if with_params { Some(&params) } else { None };
         // the requested tags are a SET: present them in listed order, reversed, and reversed with a duplicate
-        let q_listed = q;
-        let mut qq: Vec<&'static str> = q_listed.clone();
+        let mut qq: Vec<&'static str> = q.clone();
         match (qi + cfg_idx) % 3 {
             1 => qq.reverse(),
             2 => {
@@ -1500,68 +1568,111 @@ fn run_tag_config(kind: Kind, cfg: &TagCfg, cfg_idx: usize, nodes: &[Arc<FakeNod
             }
             _ => {}
         }
-        let q = &qq;
-        // the result list as (node name, Res)
-        let results: Vec<(String, Res)> = match (&fleet, reduce) {
-            (AnyFleet::Sync(f), false) => f.broadcast_json(&path, p, q).into_iter().map(|(name, r)| { let nm = r.node.clone(); (name, res_of_json(r, &nm, &path)) }).collect(),
-            (AnyFleet::Sync(f), true) => f.map_reduce_json(&path, p, q, |rs| rs.into_iter().map(|r| { let nm = r.node.clone(); (nm.clone(), res_of_json(r, &nm, &path)) }).collect()),
-            (AnyFleet::Async(f), false) => rt.block_on(f.broadcast_json(&path, p, q)).into_iter().map(|(name, r)| { let nm = r.node.clone(); (name, res_of_json(r, &nm, &path)) }).collect(),
-            (AnyFleet::Async(f), true) => rt.block_on(f.map_reduce_json(&path, p, q, |rs| rs.into_iter().map(|r| { let nm = r.node.clone(); (nm.clone(), res_of_json(r, &nm, &path)) }).collect())),
-        };
-        let filtered: BTreeSet<String> = match &fleet {
-            AnyFleet::Sync(f) => f.filter_nodes(q).into_iter().map(|n| n.name).collect(),
-            AnyFleet::Async(f) => rt.block_on(f.filter_nodes(q)).into_iter().map(|n| n.name).collect(),
-        };
-        if let Some(d) = down {
-            nodes[*d].set_mode(Out::Success, 0);
+        one_broadcast(kind, &fleet, rt, nodes, &member_tags, &qq, *down, reduce, with_params, &Value::Null, "", out);
+    }
+}
+
+/// Dynamic membership: ONE fleet instance (and a clone of it) lives through a random history of add_node / remove_node /
+/// broadcast / map_reduce / keys; the model is the current member -> tag-set map. What an earlier broadcast saw must not
+/// influence a later one (state cached across operations), a removed node is never addressed again and an added one always is.
+fn run_tag_history(kind: Kind, seed: u64, nodes: &[Arc<FakeNode>], rt: &tokio::runtime::Runtime, out: &mut TagOut) {
+    let mut r = Rng::new(seed ^ 0xC19_7A65);
+    let universe: [&'static str; 3] = ["a", "b", "c"];
+    let all_subs = subsets(&universe);
+    let mut qu = universe.to_vec();
+    qu.push("zz");
+    let queries = subsets(&qu);
+    // few distinct requests per history so that the same request recurs around membership changes
+    let hot: Vec<Vec<&'static str>> = (0..3).map(|_| queries[r.usize_below(queries.len())].clone()).collect();
+    let timeout = Duration::from_secs(5);
+    let opts = FleetOptions { default_timeout: timeout, retry_policy: RetryPolicy { max_attempts: 1, delay: Duration::from_millis(1) } };
+    let names: Vec<String> = (0..nodes.len()).map(|i| format!("node{i}")).collect();
+    let mut member_tags: Vec<Option<Vec<&'static str>>> = vec![None; nodes.len()];
+    let first = r.usize_below(nodes.len());
+    member_tags[first] = Some(all_subs[r.usize_below(all_subs.len())].clone());
+    let cfgs = vec![node_config(&names[first], nodes[first].port, member_tags[first].as_ref().unwrap(), timeout)];
+    let (fleet, twin) = match kind {
+        Kind::Sync => {
+            let f = Fleet::with_options(cfgs, opts).expect("fleet");
+            (AnyFleet::Sync(f.clone()), AnyFleet::Sync(f))
         }
-        out.evals += 1;
-        out.broadcasts += 1;
-        out.distinct.push(hash_of(&(k, &cfg.tags, q, down, reduce)));
-        let scenario = json!({"part": "tags", "kind": k, "node_tags": cfg.tags, "requested": q, "down_node": down, "via": if reduce {"map_reduce_json"} else {"broadcast_json"}});
-        let ctx = format!("{k} {} nodes tags={:?} requested={:?} down={:?} via {}", n, cfg.tags, q, down, if reduce { "map_reduce_json" } else { "broadcast_json" });
-        let want_names: BTreeSet<String> = expected.iter().map(|&i| names[i].clone()).collect();
-        let got_names: BTreeSet<String> = results.iter().map(|(n, _)| n.clone()).collect();
-        if results.len() != got_names.len() || results.len() != want_names.len() && got_names == want_names {
-            out.findings.push((format!("C19:broadcast-result-count:{k}"), format!("{} results for {} addressed nodes — {ctx}; got {:?}", results.len(), want_names.len(), results.iter().map(|(n, r)| format!("{n}:{}", r.short())).collect::<Vec<_>>()), scenario.clone()));
+        Kind::Async => {
+            let f = AsyncFleet::with_options(cfgs, opts).expect("fleet");
+            (AnyFleet::Async(f.clone()), AnyFleet::Async(f))
         }
-        if let Some(x) = got_names.difference(&want_names).next() {
-            out.findings.push((format!("C19:broadcast-addressed-extra:{k}"), format!("result from {x} which does not carry all requested tags — {ctx}"), scenario.clone()));
-        }
-        if let Some(x) = want_names.difference(&got_names).next() {
-            out.findings.push((format!("C19:broadcast-missed-node:{k}"), format!("no result for {x} which carries all requested tags — {ctx}"), scenario.clone()));
-        }
-        if filtered != want_names {
-            out.findings.push((format!("C19:filter-nodes:{k}"), format!("filter_nodes returned {filtered:?}, expected {want_names:?} — {ctx}"), scenario.clone()));
-        }
-        for (name, r) in &results {
-            out.results_checked += 1;
-            let idx = names.iter().position(|x| x == name);
-            let is_down = idx.is_some() && idx == *down;
-            if is_down {
-                if !matches!(r, Res::Io { .. }) {
-                    out.findings.push((format!("C19:broadcast-wrong-result:{k}:down-node"), format!("node {name} was down (refused) but its result is {} — {ctx}", r.long()), scenario.clone()));
+    };
+    for nd in nodes {
+        nd.reset(0);
+    }
+    let k = kind.name();
+    let mut hist: Vec<String> = vec![format!("new[{}:{:?}]", names[first], member_tags[first].as_ref().unwrap())];
+    let steps = 10 + r.usize_below(16);
+    for _ in 0..steps {
+        let which = if r.below(2) == 0 { &fleet } else { &twin };
+        let i = r.usize_below(nodes.len());
+        match r.below(10) {
+            0..=2 => {
+                let tags = all_subs[r.usize_below(all_subs.len())].clone();
+                let c = node_config(&names[i], nodes[i].port, &tags, timeout);
+                let res = match which {
+                    AnyFleet::Sync(f) => f.add_node(c),
+                    AnyFleet::Async(f) => rt.block_on(f.add_node(c)),
+                };
+                hist.push(format!("add[{}:{:?}]={}", names[i], tags, if res.is_ok() { "ok" } else { "err" }));
+                out.evals += 1;
+                let was_member = member_tags[i].is_some();
+                if res.is_ok() == was_member {
+                    out.findings.push((format!("C19:membership:add-node:{k}"), format!("add_node({}) returned {:?} although the node was {} — {k} history {}", names[i], res.map_err(|e| e.to_string()), if was_member { "already a member" } else { "not a member" }, hist.join(" ")), json!({"part": "tags-history", "kind": k, "seed": seed})));
+                    return;
                 }
-            } else if !r.is_ok() {
-                if r.io_kind() == Some("TimedOut") {
-                    out.inconclusive.push(format!("a healthy broadcast target timed out after 5 s ({ctx})"));
-                } else {
-                    out.findings.push((format!("C19:broadcast-wrong-result:{k}"), format!("result of {name} is {} instead of that node's own reply to this broadcast — {ctx}", r.long()), scenario.clone()));
+                if !was_member {
+                    member_tags[i] = Some(tags);
                 }
             }
-        }
-        // node side: exactly the addressed nodes received exactly one request carrying this token
-        for i in 0..nodes.len() {
-            let got = drain_paths(&nodes[i]).into_iter().filter(|p| *p == path).count();
-            out.node_requests += got as u64;
-            let want = (i < n && expected.contains(&i)) as usize;
-            // the node that is down may still see the request on a connection cached earlier (it then closes it)
-            if got != want && !(Some(i) == *down && got == 0) {
-                let sig = if want == 0 { format!("C19:broadcast-sent-to-unaddressed:{k}") } else { format!("C19:broadcast-request-count:{k}") };
-                out.findings.push((sig, format!("fake node {i} received {got} request(s) for this broadcast, expected {want} — {ctx}"), scenario.clone()));
+            3..=4 => {
+                let res = match which {
+                    AnyFleet::Sync(f) => f.remove_node(&names[i]),
+                    AnyFleet::Async(f) => rt.block_on(f.remove_node(&names[i])),
+                };
+                hist.push(format!("remove[{}]={res}", names[i]));
+                out.evals += 1;
+                if res != member_tags[i].is_some() {
+                    out.findings.push((format!("C19:membership:remove-node:{k}"), format!("remove_node({}) returned {res} — {k} history {}", names[i], hist.join(" ")), json!({"part": "tags-history", "kind": k, "seed": seed})));
+                    return;
+                }
+                member_tags[i] = None;
+            }
+            5 => {
+                let mut keys = match which {
+                    AnyFleet::Sync(f) => f.keys(),
+                    AnyFleet::Async(f) => rt.block_on(f.keys()),
+                };
+                keys.sort();
+                let want: Vec<String> = (0..nodes.len()).filter(|&j| member_tags[j].is_some()).map(|j| names[j].clone()).collect();
+                out.evals += 1;
+                if keys != want {
+                    out.findings.push((format!("C19:membership:keys:{k}"), format!("keys() = {keys:?}, members are {want:?} — {k} history {}", hist.join(" ")), json!({"part": "tags-history", "kind": k, "seed": seed})));
+                    return;
+                }
+            }
+            _ => {
+                let mut q = if r.below(4) == 0 { queries[r.usize_below(queries.len())].clone() } else { hot[r.usize_below(hot.len())].clone() };
+                if r.below(3) == 0 {
+                    q.reverse();
+                }
+                let reduce = r.below(3) == 0;
+                hist.push(format!("{}{:?}", if reduce { "map_reduce" } else { "broadcast" }, q));
+                let before = out.findings.len();
+                let hj = json!({"seed": seed, "steps": hist});
+                one_broadcast(kind, which, rt, nodes, &member_tags, &q, None, reduce, r.below(2) == 0, &hj, &format!(" after history {}", hist.join(" ")), out);
+                out.history_broadcasts += 1;
+                if out.findings.len() > before {
+                    return; // later steps of a history that already diverged add nothing
+                }
             }
         }
     }
+    out.histories += 1;
 }
 
 fn run_tags(args: &Args) -> Report {
@@ -1572,7 +1683,9 @@ fn run_tags(args: &Args) -> Report {
          subset of the universe plus an unknown tag, through broadcast_json and map_reduce_json (with and without params) and \
          filter_nodes, for Fleet and AsyncFleet; plus passes with one node down; oracle: result names = nodes carrying ALL \
          requested tags, one result each holding that node's own reply, and on the node side exactly one request at each \
-         addressed node and none elsewhere; distinct = (kind, node tag sets, requested set, down node, entry point)",
+         addressed node and none elsewhere; distinct = (kind, node tag sets, requested set, down node, entry point). Plus dynamic-membership histories (600 quick / 6000 thorough): one fleet \
+         and a clone of it through random add_node / remove_node / keys / broadcast / map_reduce steps with a few recurring \
+         requests, every broadcast judged the same way against the member -> tags model at that moment",
     );
     install_probe(); // only counts: fleet.attempt fires on broadcast threads that carry no case
     let (cfgs, space) = if args.thorough() {
@@ -1583,7 +1696,9 @@ fn run_tags(args: &Args) -> Report {
         (c, "all 340 assignments of subsets of {a,b} to 1..=4 nodes x all 8 subsets of {a,b,zz}, and all 584 assignments of subsets of {a,b,c} to 1..=3 nodes x all 16 subsets of {a,b,c,zz}")
     };
     let cfgs = Arc::new(cfgs);
-    let total = cfgs.len() * 2;
+    let histories: usize = if args.thorough() { 6000 } else { 600 };
+    let seed = args.seed;
+    let total = cfgs.len() * 2 + histories;
     let next = Arc::new(AtomicUsize::new(0));
     let deadline = Instant::now() + Duration::from_secs(if args.thorough() { 300 } else { 35 });
     let workers = if args.thorough() { 12 } else { 6 };
@@ -1604,11 +1719,17 @@ fn run_tags(args: &Args) -> Report {
             let rt = tokio::runtime::Builder::new_multi_thread().worker_threads(2).enable_all().build().expect("runtime");
             loop {
                 let idx = next.fetch_add(1, Ordering::Relaxed);
-                if idx >= cfgs.len() * 2 || Instant::now() > deadline {
+                if idx >= cfgs.len() * 2 + histories || Instant::now() > deadline {
                     break;
                 }
                 let kind = if idx % 2 == 0 { Kind::Sync } else { Kind::Async };
-                run_tag_config(kind, &cfgs[idx / 2], idx / 2, &nodes, &rt, &mut out);
+                if idx < histories {
+                    // dynamic-membership histories first: they are the cheap part and must not be starved by the budget
+                    run_tag_history(kind, seed.wrapping_mul(1_000_003).wrapping_add(idx as u64), &nodes, &rt, &mut out);
+                } else {
+                    let idx = idx - histories;
+                    run_tag_config(kind, &cfgs[idx / 2], idx / 2, &nodes, &rt, &mut out);
+                }
                 if out.findings.len() > 200 {
                     out.findings.truncate(200);
                 }
@@ -1628,6 +1749,8 @@ fn run_tags(args: &Args) -> Report {
         rep.count("results_checked", o.results_checked);
         rep.count("node_side_requests_matched", o.node_requests);
         rep.count("passes_with_a_node_down", o.down_node_cases);
+        rep.count("membership_histories_completed", o.histories);
+        rep.count("broadcasts_inside_membership_histories", o.history_broadcasts);
         for (sig, detail, sc) in o.findings {
             rep.violation(sig, detail, sc);
         }
